@@ -795,7 +795,13 @@ pub fn tokenize(out: &[u8]) -> Result<Vec<Ev>, String> {
         let e = s[i..].find('\n').map(|x| i + x).unwrap_or(s.len());
         (&s[i..e], (e + 1).min(s.len()))
     };
-    let parse_num = |t: &str| -> usize { t.trim().split(|c: char| !c.is_ascii_digit()).next().unwrap_or("").parse::<usize>().unwrap_or(0) };
+    // the number a message cites; a word in front of it ("... at line 7") is skipped
+    let parse_num = |t: &str| -> usize {
+        let t = t.trim_start();
+        let skip = t.chars().take_while(|c| c.is_ascii_alphabetic() || *c == ' ').count();
+        let t = if skip <= 12 { &t[skip..] } else { t };
+        t.split(|c: char| !c.is_ascii_digit()).next().unwrap_or("").parse::<usize>().unwrap_or(0)
+    };
     while i < b.len() {
         let r = &s[i..];
         let out_char_at = |k: usize| -> Option<(u8, usize)> {
@@ -898,7 +904,7 @@ pub fn tokenize(out: &[u8]) -> Result<Vec<Ev>, String> {
             }
         } else if b[i] == b'\n' || b[i] == b'\r' {
             i += 1;
-        } else if b[i].is_ascii_hexdigit() && i + 2 < b.len() && b[i + 1].is_ascii_hexdigit() && b[i + 2] == b'\t' {
+        } else if b[i].is_ascii_hexdigit() && i + 2 < b.len() && b[i + 1].is_ascii_hexdigit() && (b[i + 2] == b'\t' || b[i + 2] == b' ') {
             // memory dump rows until a line that is not a row
             let mut rows: Vec<&str> = Vec::new();
             let mut j = i;
